@@ -299,6 +299,11 @@ func sameValue(a, b Value) bool {
 	panic(fmt.Sprintf("sameValue %T", a))
 }
 
+func isByte(v Value) bool {
+	t, ok := v.(*Term)
+	return ok && t.W == 8
+}
+
 // allBytes reports whether all values are 8-bit terms.
 func allBytes(vs []Value) bool {
 	for _, v := range vs {
@@ -333,12 +338,20 @@ func eqValue(a, b Value) *Term {
 		if len(x) != len(y) {
 			panic("eqValue agg size")
 		}
-		if len(x) > 1 && allBytes(x) && allBytes(y) {
-			return Cmp("=", concatBytes(x), concatBytes(y))
-		}
 		r := Bool(true)
-		for i := range x {
+		for i := 0; i < len(x); {
+			// group runs of byte leaves into one wide comparison
+			j := i
+			for j < len(x) && isByte(x[j]) && isByte(y[j]) {
+				j++
+			}
+			if j-i > 1 {
+				r = And(r, Cmp("=", concatBytes(x[i:j]), concatBytes(y[i:j])))
+				i = j
+				continue
+			}
 			r = And(r, eqValue(x[i], y[i]))
+			i++
 		}
 		return r
 	case Ptr:
